@@ -7,7 +7,9 @@ usage: judge sys < trace     (trace lines: `<op>\t<impl result>`; first line `cf
 -/
 import Iggy.Sys.Model
 import Iggy.Sys.Spec
+import Iggy.Sys.Auth
 import Iggy.Perm.Enum
+import Iggy.Perm.Spec
 import Driver.Journal
 open Iggy Iggy.Log Iggy.Sys
 
@@ -153,6 +155,65 @@ def parseOp (enc : Nat) (toks : List String) (impl : List String) : Option Op :=
   | ["stats", _] => some .stats
   | _ => none
 
+/-- `-` | `<10 bits>[/<sid>:<6 bits>[:<tid>=<4 bits>+…];…]` -/
+def parsePerms (s : String) : Option (Option Perm.Permissions) :=
+  if s == "-" then some none else
+  let (g, streams) := match s.splitOn "/" with
+    | [g] => (g, none)
+    | g :: rest => (g, some ("/".intercalate rest))
+    | [] => ("", none)
+  let b := g.toList.map (· == '1')
+  if b.length != 10 then none else
+  let gp : Perm.GlobalPermissions :=
+    ⟨b.getD 0 false, b.getD 1 false, b.getD 2 false, b.getD 3 false, b.getD 4 false, b.getD 5 false,
+     b.getD 6 false, b.getD 7 false, b.getD 8 false, b.getD 9 false⟩
+  let st : Option (List (Nat × Perm.StreamPermissions)) := streams.map (fun ss =>
+    ((ss.splitOn ";").filter (· ≠ "")).filterMap (fun ent =>
+      match ent.splitOn ":" with
+      | sid :: bits :: rest =>
+        let sb := bits.toList.map (· == '1')
+        let topics : Option (List (Nat × Perm.TopicPermissions)) :=
+          if rest.isEmpty then none else
+          some (((":".intercalate rest).splitOn "+").filter (· ≠ "") |>.filterMap (fun te =>
+            match te.splitOn "=" with
+            | [tid, tb] =>
+              let x := tb.toList.map (· == '1')
+              tid.toNat?.map (fun k => (k, (⟨x.getD 0 false, x.getD 1 false, x.getD 2 false, x.getD 3 false⟩ : Perm.TopicPermissions)))
+            | _ => none))
+        sid.toNat?.map (fun k => (k, (⟨sb.getD 0 false, sb.getD 1 false, sb.getD 2 false, sb.getD 3 false,
+          sb.getD 4 false, sb.getD 5 false, topics⟩ : Perm.StreamPermissions)))
+      | _ => none))
+  some (some { global := gp, streams := st })
+
+/-- an op line → the request as the auth layer sees it -/
+def parseAOp (enc : Nat) (toks : List String) (impl : List String) : Option AOp :=
+  match toks with
+  | ["ping", c] => c.toNat?.map AOp.ping
+  | ["login", c, name, pw] => do pure (AOp.login (← c.toNat?) name pw)
+  | ["login-pat", c, k] => do pure (AOp.loginPat (← c.toNat?) (← k.toNat?))
+  | ["logout", c] => c.toNat?.map AOp.logout
+  | ["create-user", c, name, pw, st, perms] => do
+      pure (AOp.createUser (← c.toNat?) name pw (st == "active") (← parsePerms perms))
+  | ["delete-user", c, u] => do pure (AOp.deleteUser (← c.toNat?) (← parseIdent u))
+  | ["update-user", c, u, name, st] => do
+      pure (AOp.updateUser (← c.toNat?) (← parseIdent u) (if name == "-" then none else some name)
+        (if st == "active" then some true else if st == "inactive" then some false else none))
+  | ["update-perms", c, u, perms] => do pure (AOp.updatePerms (← c.toNat?) (← parseIdent u) (← parsePerms perms))
+  | ["change-pw", c, u, cur, new] => do pure (AOp.changePw (← c.toNat?) (← parseIdent u) cur new)
+  | ["user", c, u] => do pure (AOp.userInfo (← c.toNat?) (← parseIdent u))
+  | ["users", c] => c.toNat?.map AOp.users
+  | ["create-pat", c, name, e] => do
+      pure (AOp.createPat (← c.toNat?) name (if e == "never" then none else e.toNat?))
+  | ["delete-pat", c, name] => do pure (AOp.deletePat (← c.toNat?) name)
+  | ["pats", c] => c.toNat?.map AOp.pats
+  | ["clean-pats"] => some .cleanPats
+  | _ =>
+    (parseOp enc toks impl).map (fun op =>
+      let c := match toks with
+        | _ :: c :: _ => c.toNat?.getD 0
+        | _ => 0
+      AOp.core c op)
+
 /-! ## printing (same canonical text as the harness) -/
 
 def showMsg (enc : Nat) (m : Msg) : String :=
@@ -189,6 +250,11 @@ def canonImpl (toks : List String) (impl : String) : String :=
     -- the model does not know the number of connected clients: compare the first seven figures
     " ".intercalate ((impl.splitOn " ").take 8)
   | ["me", _] => " ".intercalate ((impl.splitOn " ").take 3)
+  | ["user", _, _] =>
+    -- `ok id:name:status:perms` → the model prints id:name:status
+    (match impl.splitOn " " with
+      | ["ok", x] => if x == "none" then impl else "ok " ++ ":".intercalate ((x.splitOn ":").take 3)
+      | _ => impl)
   | ["restart"] => "ok"
   | "evict" :: _ => "ok"
   | _ => impl
@@ -212,7 +278,7 @@ def diffKind (toks : List String) (m i : String) : String :=
 
 structure St where
   enc : Nat
-  sys : Sys
+  asys : ASys
   spec : SpecState
   line : Nat := 0
   corr : Nat := 0
@@ -226,6 +292,8 @@ structure St where
   /-- last `topic` answer of the implementation per (stream, topic): (topic size, per-partition (id, msgs, size)),
   valid until the next state-changing operation -/
   lastTopic : List ((Nat × Nat) × (Nat × List (Nat × Nat × Nat))) := []
+
+def St.sys (st : St) : Sys := st.asys.sys
 
 def bump (cov : List (String × Nat)) (k : String) : List (String × Nat) :=
   match cov.find? (fun e => e.1 == k) with
@@ -326,10 +394,19 @@ change any observation: the implementation's own earlier answer to the same ques
 Returns the new snapshot state and a violation class if an observation changed. -/
 def snapCheck (st : St) (toks : List String) (opS impl : String) : List (String × String) × Bool × Option String :=
   let op := toks.headD ""
-  let isObs := (op == "poll" && toks.getLast? == some "0") || op == "get-offset"
+  -- catalogue listings: sizes move by one batch header when a buffer is persisted and member counts
+  -- fall to 0 when connections are lost, so the last field of every entity is masked
+  let isCat := op == "streams" || op == "stream" || op == "topics" || op == "groups"
+  let isPlain := op == "users" || op == "user"
+  let maskLast (x : String) : String :=
+    " ".intercalate ((x.splitOn " ").map (fun w => ",".intercalate ((w.splitOn ",").map (fun e =>
+      let f := e.splitOn ":"
+      if f.length > 2 then ":".intercalate (f.take (f.length - 1)) else e))))
+  let impl := if isCat then maskLast impl else impl
+  let isObs := (op == "poll" && toks.getLast? == some "0") || op == "get-offset" || isCat || isPlain
   let isIdentity := op == "flush" || op == "save" || op == "restart" || op == "evict" || op == "clock" ||
-    op == "topic" || op == "stats" || op == "cacheinfo" || op == "ls" || op == "scan" || op == "ping" ||
-    op == "streams" || op == "stream" || op == "topics" || op == "groups" || op == "group" || op == "me"
+    op == "topic" || op == "stats" || op == "cacheinfo" || op == "ls" || (op.startsWith "scan") || op == "ping" ||
+    op == "group" || op == "me" || op == "conn" || op == "login" || op == "pats"
   if isObs then
     match st.snap.find? (fun e => e.1 == opS) with
     | some e =>
@@ -462,6 +539,70 @@ def groupCheck (st : St) (impl : String) : List String :=
     | _ => []
   | _ => []
 
+/-- the documented capability a core operation needs (sdk/src/models/permissions.rs), at the resolved
+stream / topic ids; `none` = not covered by the documented hierarchy -/
+def opCap (y : Sys) (op : Op) : Option Perm.Cap :=
+  let st (si : Ident) (k : Nat → Perm.Cap) : Option Perm.Cap :=
+    match y.findStream si with | .ok s => some (k s.id) | .error _ => none
+  let tp (si ti : Ident) (k : Nat → Nat → Perm.Cap) : Option Perm.Cap :=
+    match y.findStream si with
+    | .ok s => (match s.findTopic ti with | .ok t => some (k s.id t.id) | .error _ => none)
+    | .error _ => none
+  match op with
+  | .createStream .. => some .createStream
+  | .streams => some .listStreams
+  | .streamInfo si => st si .readStream
+  | .updateStream si _ | .deleteStream si | .purgeStream si => st si .manageStream
+  | .createTopic si .. => st si .createTopic
+  | .topics si => st si .listTopics
+  | .topicInfo si ti | .groups si ti | .groupInfo si ti .. | .createGroup si ti .. | .deleteGroup si ti _
+  | .join _ si ti _ | .leave _ si ti _ => tp si ti .readTopic
+  | .updateTopic si ti .. | .deleteTopic si ti | .purgeTopic si ti | .createParts si ti _ | .deleteParts si ti _ =>
+      tp si ti .manageTopic
+  | .poll _ si ti .. | .getOffset _ si ti .. | .storeOffset _ si ti .. | .deleteOffset _ si ti .. => tp si ti .poll
+  | .send si ti .. | .flush si ti _ => tp si ti .send
+  | .stats => some .readServers
+  | .me .. => some .readServers
+  | _ => none
+
+/-- C09 oracles, judged on the implementation's answer and the specification (`Perm.Grants`), not on
+the model's guard: (A) a request on a connection that has not authenticated is refused (ping and the
+login commands excepted); (B) a request that is performed is granted by the user's current
+permissions under the documented hierarchy. "Refused" = an error, or the empty answer. -/
+def authzCheck (st : St) (aop : AOp) (opS impl : String) : List String :=
+  let performed := impl.startsWith "ok" && impl != "ok none"
+  if !performed then [] else
+  let a := st.asys
+  let conn : Option Nat := match aop with
+    | .ping _ | .login .. | .loginPat .. | .cleanPats => none
+    | .logout c | .createUser c .. | .deleteUser c _ | .updateUser c .. | .updatePerms c .. | .changePw c ..
+    | .userInfo c _ | .users c | .createPat c .. | .deletePat c _ | .pats c => some c
+    | .core c op => (match op with
+        | .clock _ | .save | .maintain | .restart _ | .evict .. | .close _ => none
+        | _ => some c)
+  match conn with
+  | none => []
+  | some c =>
+    let u := a.userOf c
+    if u = 0 then [s!"SPEC-VIOL {st.line} class=unauthenticated-allowed op={opS} impl={impl}"] else
+    let perms : Option Perm.Permissions := (find? a.users u).bind (·.perms)
+    let cap : Option Perm.Cap := match aop with
+      | .createUser .. | .deleteUser .. | .updateUser .. | .updatePerms .. => some .manageUsers
+      | .users _ => some .readUsers
+      | .userInfo _ ui => (match a.findUser ui with
+          | some x => if x.id = u then none else some .readUsers
+          | none => none)
+      | .changePw _ ui .. => (match a.findUser ui with
+          | some x => if x.id = u then none else some .manageUsers
+          | none => none)
+      | .core _ op => opCap a.sys op
+      | _ => none
+    match cap with
+    | none => []
+    | some cp =>
+      if Perm.Grants perms cp then [] else
+        [s!"SPEC-VIOL {st.line} class=unauthorized-allowed op={opS} user={u} needs={repr cp} impl={impl}"]
+
 def stepLine (st : St) (raw : String) : St × List String :=
   let st := { st with line := st.line + 1 }
   let (opS, implS) := match raw.splitOn "\t" with
@@ -476,14 +617,27 @@ def stepLine (st : St) (raw : String) : St × List String :=
     | none => []
     | some cls => [s!"SPEC-VIOL {st.line} class={cls} op={opS.trimAscii.toString} expected=(its own earlier answer) impl={implS}"]
   let st := { st with specViol := st.specViol + msgs0.length }
-  match parseOp st.enc toks (implS.splitOn " ") with
+  match parseAOp st.enc toks (implS.splitOn " ") with
   | none =>                                -- not modelled (connection handling, ls, scan, …)
     if toks.headD "" == "ls" then
       let v := sizeVsFiles st implS
       ({ st with specViol := st.specViol + v.length }, msgs0 ++ v)
+    else if (toks.headD "").startsWith "scan" then
+      -- C10 / C19: a raw password, raw token, payload or journalled name must not be in any file
+      let st := { st with cov := bump st.cov "op:scan" }
+      if implS.startsWith "ok found" then
+        ({ st with specViol := st.specViol + 1 },
+          msgs0 ++ [s!"SPEC-VIOL {st.line} class=secret-in-clear op={opS.trimAscii.toString} impl={implS}"])
+      else (st, msgs0)
     else (st, msgs0)
-  | some op =>
-    let (sys', out, effs) := step st.sys op
+  | some aop =>
+    let (asys', out, effs) := stepA st.asys aop
+    -- the oracles below judge the data plane: they look at authorised core operations only
+    let op : Op := match aop, out with
+      | .core _ o, .err "unauthenticated" => (match o with | .clock t => .clock t | _ => .stats)
+      | .core _ o, .err "unauthorized" => (match o with | .clock t => .clock t | _ => .stats)
+      | .core _ o, _ => o
+      | _, _ => .stats
     let mtxt := showOut st.enc out
     let itxt := canonImpl toks implS
     let cov := bump st.cov ("op:" ++ toks.headD "")
@@ -503,7 +657,7 @@ def stepLine (st : St) (raw : String) : St × List String :=
     let msgs1 := if mtxt == itxt then [] else
       [s!"CORR-DIFF {st.line} kind={diffKind toks mtxt itxt} op={opS.trimAscii.toString} model={mtxt} impl={itxt}"]
     let extra : List String :=
-      gateCheck st op itxt ++ retentionCheck st effs ++
+      authzCheck st aop opS.trimAscii.toString itxt ++ gateCheck st op itxt ++ retentionCheck st effs ++
       (match op with
         | .topicInfo si _ => (match st.sys.findStream si with
             | .ok s => figuresCheck st s.id itxt
@@ -523,7 +677,7 @@ def stepLine (st : St) (raw : String) : St × List String :=
       | none => []
       | some (cls, exp) =>
         [s!"SPEC-VIOL {st.line} class={cls}{if mtxt == itxt then ":model-agrees" else ""} op={opS.trimAscii.toString} expected={exp} impl={itxt}"]
-    ({ st with sys := sys', spec := applyEffects st.sys.cfg st.spec effs, cov := cov
+    ({ st with asys := asys', spec := applyEffects st.sys.cfg st.spec effs, cov := cov
                corr := st.corr + msgs1.length, specViol := st.specViol + msgs2.length + extra.length
                modelled := st.modelled + 1, lastTopic := lastTopic },
       msgs0 ++ msgs1 ++ msgs2 ++ extra)
@@ -540,7 +694,8 @@ def parseCfg (line : String) : St :=
   let scfg : SCfg := { deleteOldest := kvGet kv "delete_oldest" "0" == "1",
                        defaultExpiry := optN "default_expiry" "never",
                        defaultMax := optN "default_max" "unlimited" }
-  { enc := if kvGet kv "enc" "-" == "-" then 0 else 28, sys := Sys.init cfg scfg (n "clock" "0"), spec := [] }
+  { enc := if kvGet kv "enc" "-" == "-" then 0 else 28,
+    asys := ASys.init (Sys.init cfg scfg (n "clock" "0")) (n "pat_max" "100"), spec := [] }
 
 partial def loop (h : IO.FS.Stream) (st : St) : IO St := do
   let line ← h.getLine
